@@ -40,7 +40,9 @@ THEOREMS = [P + n for n in (
     'no_overwrite_guard_pathlike', 'existing_path_never_replaced', 'pkl_path_exact',
     'autodetect_str_only',
     # round 6: falsy-but-valid field values; the field accesses of *_from_dict as coded
-    'from_dict_fields_table', 'fromDictC_eq_fromDict', 'falsy_fields_roundtrip')]
+    'from_dict_fields_table', 'fromDictC_eq_fromDict', 'falsy_fields_roundtrip',
+    # round 7: strings are compared character for character
+    'strings_exact')]
 RULE = ('one PRNG; a case = 1-3 objects of the five kinds (RDMs, Dataset / DatasetBase / TemporalDataset, 5 model '
         'classes, Result from constructor or 5 evaluators; sizes 1-13, values incl. NaN/inf/-0; descriptor values: '
         'str / unicode / empty / long str, int / float / bool / None, numpy scalars and small dtypes, list / tuple / '
@@ -49,7 +51,12 @@ RULE = ('one PRNG; a case = 1-3 objects of the five kinds (RDMs, Dataset / Datas
         'every field of every kind: dof 0 (eval_fixed on one RDM; hand-built with / without variances), noise '
         'ceiling 0.0, zero evaluations / variances / data, n_rdm / n_pattern None or 0, empty-string names / '
         'methods / measures, descriptor values 0 / 0.0 / -0.0 / False / "" / [] / () / {} / array(0) / numpy zero '
-        'scalars, all-falsy per-element descriptors, models without RDMs or parameters) after 0-3 structural '
+        'scalars, all-falsy per-element descriptors, models without RDMs or parameters; string edge values in every '
+        'string-bearing field (measure, model name, method, cv_method, scalar / list / tuple / 1-d and 2-d array / '
+        'object-array descriptor values, entries of lists that are no arrays, nested dicts, descriptor names): '
+        'leading / trailing blank, tab, newline, CR, NBSP and other Unicode spaces, all-blank, empty, entries '
+        'differing only in trailing white space, NFC / NFD pairs, control characters other than NUL, literal '
+        'look-alikes, 260-15000 characters also inside fixed-width arrays) after 0-3 structural '
         'operations, then 2-8 save/load operations (hdf5|pkl or save\'s defaults, path with 19 name endings | '
         'named handle | memory handle, overwrite on/off, fresh|existing, second saves into a used handle, '
         'load with / without file_type; every path handed over, per operation, as str | pathlib.Path | another '
@@ -88,9 +95,12 @@ FALSY_TAGS = ['falsy:dof0', 'falsy:dof0:eval', 'falsy:dof0:variances', 'falsy:do
               'falsy:kind:rdms', 'falsy:kind:dataset', 'falsy:kind:temporal', 'falsy:kind:model',
               'falsy:kind:result']
 BRANCHES += FALSY_TAGS
+# round 7: string edge values in every string-bearing field (what a strip / rstrip / normalisation /
+# padding removal on the way to or from the file would change); STR_TAGS is defined beside `_str_tags`
 ASSUMPTIONS = [
     'strings contain no NUL character (h5py rejects them in attributes, numpy strips trailing NULs in fixed-width '
-    'arrays); integers fit int64; an array-like list does not mix bare numbers with strings (numpy would stringify the '
+    'arrays) and no lone surrogate (not encodable as UTF-8); every other character, white space and control '
+    'characters included, must come back exactly; integers fit int64; an array-like list does not mix bare numbers with strings (numpy would stringify the '
     'numbers); values are not bytes, complex, datetime or sets',
     'dictionary keys are non-empty strings without "/" (h5py makes nested groups of a/b), other than ".", and no '
     'descriptor is called "rsatoolbox_list" (the marker of a list group) or "rsatoolbox_version"',
@@ -131,7 +141,14 @@ def _fl(rng, special=0.15):
     return rng.randint(-40, 40) / 8
 
 
+# round 7: while > 0, every string the generators draw is, with this probability, a string edge value
+# (no extra draw while 0: the random stream of all other sessions is what it was)
+_EDGE = [0.0]
+
+
 def _s(rng, uni):
+    if _EDGE[0] and rng.random() < _EDGE[0]:
+        return _edge_s(rng)
     return rng.choice(UNI) if rng.random() < uni else rng.choice(ASCII)
 
 
@@ -635,6 +652,233 @@ def gen_falsy(rng, reps=1):
             yield {'objs': [o], 'ops': ops}
 
 
+# ------------------------------------------------------------- string edge values (round 7)
+# what a `strip` / `rstrip` / `splitlines` / `normalize` / fixed-width truncation / NUL-or-blank padding
+# removal on the way to or from a file silently changes.  No NUL (ASSUMPTIONS), no lone surrogates.
+
+NFC_NFD = [('\u00e9', 'e\u0301'), ('\u00c5', 'A\u030a'), ('\u00f1', 'n\u0303'), ('\uac00', '\u1100\u1161'),
+           ('caf\u00e9', 'cafe\u0301'), ('\u1e69', 's\u0323\u0307')]
+EDGE_STR = {
+    'trailing-blank': ['face ', 'house  ', 'x y ', '\u00dcn\u00ef ', '\u65e5\u672c ', 'a.b  ', '0 '],
+    'leading-blank': [' face', '  a', ' x ', ' \u03b1'],
+    'tab': ['a\t', '\tb', 'a\tb', 'col1\tcol2\t'],
+    'newline': ['a\n', '\nb', 'line1\nline2', 'a\r\n', 'a\r', 'x\n\n'],
+    'nbsp': ['a\u00a0', '\u00a0b', 'a\u2003', 'a\u3000', 'a\u2028', 'a\u0085', '\ufeffa', 'a\u200b'],
+    'all-blank': [' ', '   ', ' \t ', '\u00a0', '\n', '\t', '\u3000 ', '\r\n'],
+    'empty': [''],
+    'control': ['a\x01b', 'a\x1f', 'bell\x07', 'x\x7f', 'esc\x1b[0m', 'a\x0b', 'a\x0c', 'a\x1c', '\x08a'],
+    'nfd': [d for _, d in NFC_NFD] + [c for c, _ in NFC_NFD],
+    'quote': ['"a"', "b'", 'a\\n', 'a\\', '[1, 2]', 'None', 'nan', '1', 'True', "b'x'", 'a/b', 'a,b', '%s', '{0}'],
+}
+# descriptor names that are edge strings themselves (never empty, '.', or holding '/': ASSUMPTIONS)
+EDGE_KEYS = ['lab ', ' lab', 'la b', 'lab\t', 'cafe\u0301', 'caf\u00e9', 'l\u00a0', 'lab\n', ' ']
+
+
+def _edge_s(rng):
+    c = rng.choice(['trailing-blank', 'trailing-blank', 'leading-blank', 'tab', 'newline', 'nbsp', 'all-blank',
+                    'empty', 'control', 'nfd', 'quote', 'long'])
+    if c == 'long':      # long, and ending in blanks half of the time
+        unit = rng.choice(['ab ', 'x', '\u65e5\u672c', 'e\u0301', 'w\t'])
+        return (unit * rng.randint(260 // len(unit), 320 // len(unit)))[:320] + rng.choice(['', ' ', '  \n'])
+    return rng.choice(EDGE_STR[c])
+
+
+def _edge_group(rng, n, cls=None):
+    """n strings (n >= 1) forming one of the edge groups; the first entries carry the class"""
+    cls = cls or rng.choice(['differ-only-trailing', 'nfd-pair', 'trailing-blank', 'all-blank', 'mixed', 'long'])
+    if cls == 'differ-only-trailing':
+        base = rng.choice(['face', 'a', '\u00dcn\u00ef', 'x y', 'e\u0301'])
+        v = [base, base + ' ', base + '  ', base + '\t', base + '\n', base + '\u00a0', ' ' + base]
+    elif cls == 'nfd-pair':
+        c, d = rng.choice(NFC_NFD)
+        v = [d, c, d + ' ', c + 'x', 'x' + d]
+    elif cls == 'trailing-blank':
+        v = [rng.choice(EDGE_STR['trailing-blank']) for _ in range(max(n, 2))]
+    elif cls == 'all-blank':
+        v = [' ', '', '  ', '\t', '\u00a0', '\n', '   ']
+    elif cls == 'white':     # one string of every white-space / control class: tab, LF, CR, NBSP, control
+        v = [rng.choice(EDGE_STR['tab']), rng.choice(['a\n', '\nb', 'x\n\n']), rng.choice(['a\r', 'a\r\n', 'c\rd']),
+             rng.choice(EDGE_STR['nbsp']), rng.choice(EDGE_STR['control']), rng.choice(EDGE_STR['leading-blank'])]
+        rng.shuffle(v)
+        n = max(n, len(v))
+    elif cls == 'long':      # fixed-width storage: the longest entry sets the width of all
+        v = ['ab ' * rng.randint(400, 1500) + rng.choice(['', ' ']), 'a ', '', ' ', 'b']
+    else:
+        v = [_edge_s(rng) for _ in range(max(n, 2))]
+        v[0] = rng.choice(EDGE_STR['trailing-blank'])
+    while len(v) < n:
+        v.append(_edge_s(rng))
+    if cls != 'long':                        # the first two (the pair) stay, any of the others may follow
+        tail = v[2:]
+        rng.shuffle(tail)
+        v = v[:2] + tail
+    v = v[:n]
+    if n >= 3 and rng.random() < 0.5:        # ... in any position
+        tail = v[1:]
+        rng.shuffle(tail)
+        v = v[:1] + tail
+    return v
+
+
+def _edge_coll(rng, n, cls=None, form=None, per_element=False):
+    """a collection of n edge strings as a list / tuple / string array / object array / 2-d string array"""
+    v = _edge_group(rng, n, cls)
+    n = len(v)
+    form = form or rng.choice(['list', 'nd', 'nd', 'obj'] + ([] if per_element else ['tuple', 'nd2']))
+    if form == 'list':
+        return {'py': 'list', 'v': [{'py': 'str', 'v': x} for x in v]}
+    if form == 'tuple':
+        return {'py': 'tuple', 'v': [{'py': 'str', 'v': x} for x in v]}
+    if form == 'obj':
+        return {'py': 'nd', 'dtype': 'O', 'shape': [n], 'v': v, 'ok': 'str'}
+    if form == 'nd2' and n % 2 == 0:
+        return {'py': 'nd', 'dtype': 'U', 'shape': [n // 2, 2], 'v': v}
+    return {'py': 'nd', 'dtype': 'U', 'shape': [n], 'v': v}
+
+
+def _edge_obj_descs(rng, classes, form=None):
+    """per-object descriptors: one collection per class named, one scalar edge string, one list that is no
+    array holding edge strings, one nested dict holding both forms; some under names that are edge strings"""
+    keys = ['e%d' % i for i in range(len(classes) + 9)]
+    i, j, l = rng.sample(range(len(keys)), 3)
+    keys[i] = str(i) + rng.choice(EDGE_KEYS)
+    keys[j] = str(j) + rng.choice(['lab ', 'l  ', 'la b '])          # a name ending in a blank
+    keys[l] = str(l) + 'cafe\u0301'                                   # a decomposed name
+    out = [[keys[i], _edge_coll(rng, rng.randint(2, 5), c, form)] for i, c in enumerate(classes)]
+    k = len(classes)
+    out.append([keys[k], {'py': 'str', 'v': rng.choice(EDGE_STR['trailing-blank'] + EDGE_STR['all-blank']
+                                                       + EDGE_STR['nfd'] + [_edge_s(rng)])}])
+    out.append([keys[k + 1], {'py': 'list', 'nl': 'str',
+                              'v': [{'py': 'str', 'v': 'a '}, {'py': 'none'}, {'py': 'str', 'v': _edge_s(rng)},
+                                    {'py': 'str', 'v': ' '}]}])
+    out.append([keys[k + 2], {'py': 'dict', 'v': [['s ', {'py': 'str', 'v': _edge_s(rng)}],
+                                                  ['v', _edge_coll(rng, 3, rng.choice(classes), form)]]}])
+    out.append([keys[k + 3], {'py': 'str', 'v': ('long ' * rng.randint(60, 3000)) + rng.choice(['', ' ', '\n'])}])
+    out.append([keys[k + 4], _edge_coll(rng, 4, rng.choice(classes), 'nd2')])
+    out.append([keys[k + 5], _edge_coll(rng, rng.randint(2, 4), rng.choice(classes), 'tuple')])
+    out.append([keys[k + 6], {'py': 'str', 'v': rng.choice([d for _, d in NFC_NFD])}])
+    out.append([keys[k + 7], _edge_coll(rng, rng.randint(2, 4), rng.choice(classes), 'obj')])
+    out.append([keys[k + 8], _edge_coll(rng, 6, 'white', rng.choice(['list', 'nd']))])
+    return out
+
+
+def _npair_to_ncond(npair):
+    n = 2
+    while n * (n - 1) // 2 < npair:
+        n += 1
+    return n
+
+
+def _edge_into_rdms(rng, r, classes, form=None):
+    n_rdm, n_cond = len(r['dis']), _npair_to_ncond(len(r['dis'][0]))
+    r['descriptors'] = list(r.get('descriptors') or []) + _edge_obj_descs(rng, classes, form)
+    c0 = classes[0]
+    r['rdm_descriptors'] = list(r.get('rdm_descriptors') or []) \
+        + [['er', _edge_coll(rng, n_rdm, c0 if n_rdm >= 2 else 'trailing-blank', form, True)]]
+    r['pattern_descriptors'] = list(r.get('pattern_descriptors') or []) \
+        + [['ep', _edge_coll(rng, n_cond, classes[-1], form, True)],
+           [rng.choice(EDGE_KEYS), _edge_coll(rng, n_cond, None, None, True)]]
+    if rng.random() < 0.7:
+        r['measure'] = rng.choice(EDGE_STR['trailing-blank'] + EDGE_STR['all-blank'] + [_edge_s(rng)])
+
+
+def _edge_model(rng, m, classes, form=None, n_cond=None):
+    m['name'] = rng.choice(EDGE_STR['trailing-blank'] + EDGE_STR['all-blank'] + EDGE_STR['nfd']
+                           + [_edge_s(rng), _edge_s(rng)])
+    if m['type'] == 'Model':
+        return
+    src = m['rdm']
+    if src.get('kind') != 'rdms':       # a bare prediction vector carries no descriptor: give it RDMs
+        rows = src.get('rows', 1)
+        npair = len(src['vec']) // rows
+        src = m['rdm'] = {'kind': 'rdms', 'dis': [src['vec'][i * npair:(i + 1) * npair] for i in range(rows)],
+                          'measure': None, 'descriptors': [], 'rdm_descriptors': [], 'pattern_descriptors': []}
+    _edge_into_rdms(rng, src, classes, form)
+
+
+def stredge_obj(rng, kind, classes, form=None, how=None):
+    """an object of the kind drawn with every string an edge value half of the time, plus collections of
+    the classes named in every descriptor dictionary it has and edge strings in its scalar string fields"""
+    _EDGE[0] = 0.5
+    try:
+        if kind == 'model':
+            o = gen_model(rng, 0.25, mtype=rng.choice(['ModelFixed', 'ModelWeighted', 'ModelSelect',
+                                                       'ModelInterpolate']))
+        elif kind == 'result':
+            o = gen_result(rng, 0.25, many=False)
+            while how and o['how'] != how:
+                o = gen_result(rng, 0.25, many=False)
+        else:
+            o = gen_obj(rng, kind)
+    finally:
+        _EDGE[0] = 0.0
+    if how == 'history' and not o.get('history'):      # after a C10 / C11 operation
+        o['history'] = [['subsample_pattern', 'index', [1, 0, 1]]] if kind == 'rdms' else [['sort_by', 'c'], ['copy']]
+    if kind == 'rdms':
+        _edge_into_rdms(rng, o, classes, form)
+    elif kind in ('dataset', 'temporal'):
+        n_obs, n_ch = o['shape'][0], o['shape'][1]
+        o['descriptors'] = list(o['descriptors']) + _edge_obj_descs(rng, classes, form)
+        o['obs_descriptors'] = list(o['obs_descriptors']) \
+            + [['eo', _edge_coll(rng, n_obs, classes[0] if n_obs >= 2 else 'all-blank', form, True)]]
+        o['channel_descriptors'] = list(o['channel_descriptors']) \
+            + [[rng.choice(['ec'] + EDGE_KEYS), _edge_coll(rng, n_ch, classes[-1] if n_ch >= 2 else 'trailing-blank',
+                                                          form, True)]]
+        if kind == 'temporal' and o.get('time_descriptors'):
+            o['time_descriptors'] = list(o['time_descriptors']) \
+                + [['et', _edge_coll(rng, o['shape'][2], None, form, True)]]
+    elif kind == 'model':
+        _edge_model(rng, o, classes, form)
+    else:
+        for m in o['models']:
+            if rng.random() < 0.7 or m is o['models'][0]:
+                _edge_model(rng, m, classes, form)
+        if o['how'] == 'ctor':
+            o['method'] = rng.choice(EDGE_STR['trailing-blank'])
+            o['cv_method'] = rng.choice(EDGE_STR['all-blank'] + [d for _, d in NFC_NFD] + EDGE_STR['newline'])
+    return o
+
+
+STR_REQUIRED = ['differ-only-trailing', 'nfd-pair', 'trailing-blank', 'all-blank']
+
+
+def gen_stredge(rng, reps=1, sessions=6):
+    """directed sessions: objects of every kind whose string-bearing fields hold edge values, through HDF5
+    (path and memory handle) and pickle, read back each time and compared exactly; then random sessions
+    (`gen_case`: histories, several objects, overwrite, path kinds) drawn with the edge domain switched on"""
+    for _ in range(reps):
+        for kind in ('rdms', 'dataset', 'temporal', 'model', 'result'):
+            for form in ('list', 'nd'):
+                classes = list(STR_REQUIRED)
+                rng.shuffle(classes)
+                o = stredge_obj(rng, kind, classes + ['long', 'mixed'], form if rng.random() < 0.7 else None,
+                                how={'result': 'ctor', 'rdms': 'history', 'dataset': 'history'}.get(kind)
+                                if form == 'list' else None)
+                k = o['kind']
+                tp = {'path': True, 'id': 0, 'name': '.h5'}
+                tq = {'path': True, 'id': 1, 'name': '.pkl'}
+                tm = {'path': False, 'id': 2, 'mem': True}
+                ops = [{'do': 'save', 'obj': 0, 'target': tp, 'ft': 'hdf5', 'overwrite': False},
+                       {'do': 'load', 'kind': k, 'target': tp, 'ft': rng.choice([None, 'hdf5']) if k != 'model' else 'hdf5'},
+                       {'do': 'save', 'obj': 0, 'target': tm, 'ft': 'hdf5', 'overwrite': False},
+                       {'do': 'load', 'kind': k, 'target': tm, 'ft': 'hdf5'},
+                       {'do': 'save', 'obj': 0, 'target': tq, 'ft': 'pkl', 'overwrite': rng.random() < 0.5},
+                       {'do': 'load', 'kind': k, 'target': tq, 'ft': 'pkl'}]
+                if rng.random() < 0.4:      # overwrite the HDF5 file with the same object, read again
+                    ops += [{'do': 'save', 'obj': 0, 'target': tp, 'ft': 'hdf5', 'overwrite': True},
+                            {'do': 'load', 'kind': k, 'target': tp, 'ft': 'hdf5'}]
+                if rng.random() < 0.3:
+                    ops[0]['via'] = ops[1]['via'] = 'Path'
+                yield {'objs': [o], 'ops': ops}
+        for _ in range(sessions):
+            _EDGE[0] = rng.choice([0.2, 0.5])
+            try:
+                c = gen_case(rng)
+            finally:
+                _EDGE[0] = 0.0
+            yield c
+
+
 # file name endings: what `load_*` recognises without `file_type` ('.pkl' | '.h5' | 'hdf5', by the
 # last characters only, case-sensitively) and what it does not
 NAMES_H5 = ['.h5', '.h5', '.hdf5', '_hdf5', '.pkl.h5', '.tar.hdf5']
@@ -867,6 +1111,9 @@ def generate(rng, tier):
     yield from gen_falsy(rng, 1 if tier == 'quick' else 12)
     for _ in range(n):
         yield gen_case(rng)
+    # round 7: string edge values in every string-bearing field (last: the random stream of all
+    # sessions above is unchanged)
+    yield from gen_stredge(rng, 1 if tier == 'quick' else 10, 6 if tier == 'quick' else 40)
 
 
 def search(rng, tier):
@@ -1306,8 +1553,158 @@ def _falsy_tags(case):
     return br
 
 
+def _str_sites(spec):
+    """every string an object spec carries: (form, field, [strings]); form = 'scalar' (an HDF5 attribute),
+    'array' (a list / tuple / array of strings only: an HDF5 byte-string dataset), 'mixed' (entries of a
+    list that is no array) or 'key' (a descriptor name)"""
+    out = []
+
+    def val(v, fld):
+        py = v.get('py')
+        if py == 'str':
+            out.append(('scalar', fld, [v['v']]))
+        elif py in ('list', 'tuple'):
+            ss = [e['v'] for e in v['v'] if e.get('py') == 'str']
+            if ss:
+                out.append(('array' if len(ss) == len(v['v']) else 'mixed', fld, ss))
+            for e in v['v']:
+                if e.get('py') != 'str':
+                    val(e, fld)
+        elif py == 'nd' and v['dtype'] in ('U', 'O'):
+            ss = [x for x in v['v'] if isinstance(x, str)]
+            if ss:
+                out.append(('array' if len(ss) == len(v['v']) else 'mixed', fld, ss))
+        elif py == 'dict':
+            for k, x in v['v']:
+                out.append(('key', fld, [k]))
+                val(x, fld)
+
+    def obj(d):
+        for f in ('measure', 'name', 'method', 'cv_method'):
+            if isinstance(d.get(f), str):
+                out.append(('scalar', f, [d[f]]))
+        for fld in ('descriptors', 'rdm_descriptors', 'pattern_descriptors', 'obs_descriptors',
+                    'channel_descriptors', 'time_descriptors'):
+            for k, v in d.get(fld) or []:
+                out.append(('key', fld, [k]))
+                val(v, fld)
+        if isinstance(d.get('rdm'), dict) and d['rdm'].get('kind') == 'rdms':
+            obj(d['rdm'])
+        for m in d.get('models') or []:
+            obj(m)
+    obj(spec)
+    return out
+
+
+_WS_OTHER = '\u00a0\u2003\u3000\u2028\u2029\u0085\ufeff\u200b\u2009'
+
+
+def _str_classes(x):
+    """the edge classes of one string (independent of how the generator made it)"""
+    import unicodedata
+    c = set()
+    if x == '':
+        return {'empty'}
+    core = x.strip().strip(_WS_OTHER)
+    if core == '':
+        c.add('all-blank')
+    else:
+        if x.rstrip() != x or x[-1] in _WS_OTHER:
+            c.add('trailing-blank')
+        if x.lstrip() != x or x[0] in _WS_OTHER:
+            c.add('leading-blank')
+    if x.endswith(' '):
+        c.add('trailing-space')
+    if '\t' in x:
+        c.add('tab')
+    if '\n' in x or '\r' in x:
+        c.add('newline')
+    if '\r' in x:
+        c.add('cr')
+    if any(ch in _WS_OTHER for ch in x):
+        c.add('nbsp')
+    if any((ord(ch) < 32 and ch not in '\t\n\r') or ord(ch) == 127 for ch in x):
+        c.add('control')
+    if unicodedata.normalize('NFC', x) != x:
+        c.add('nfd')
+    if len(x) > 250:
+        c.add('long')
+    return c
+
+
+STR_TAGS = ['str:trailing-blank', 'str:all-blank', 'str:differ-only-trailing', 'str:nfd',
+            'str:trailing-blank:array', 'str:trailing-blank:scalar', 'str:trailing-blank:mixed', 'str:trailing-blank:key',
+            'str:trailing-space:array', 'str:all-blank:array', 'str:all-blank:scalar', 'str:empty:array',
+            'str:differ-only-trailing:array', 'str:nfd:array', 'str:nfd:scalar', 'str:nfd-pair', 'str:nfd:key',
+            'str:leading-blank', 'str:tab', 'str:newline', 'str:nbsp', 'str:control', 'str:long', 'str:long:array',
+            'str:tab:array', 'str:newline:array', 'str:cr:array', 'str:nbsp:array', 'str:control:array',
+            'str:leading-blank:array',
+            'str:long+trailing-blank', 'str:edge:hdf5', 'str:edge:pkl', 'str:edge:handle', 'str:edge:history',
+            'str:edge:per-element', 'str:edge:2d-array', 'str:edge:object-array', 'str:edge:tuple',
+            'str:edge:field:measure', 'str:edge:field:name', 'str:edge:field:method', 'str:edge:field:cv_method',
+            'str:edge:kind:rdms', 'str:edge:kind:dataset', 'str:edge:kind:temporal', 'str:edge:kind:model',
+            'str:edge:kind:result']
+
+BRANCHES += STR_TAGS
+
+
+def _str_tags(case):
+    """which string edge values the objects of a session carry, where (scalar = attribute, array = byte-string
+    dataset, entry of a list that is no array, descriptor name) and through which file type they go"""
+    import unicodedata
+    br = set()
+    edge_objs = set()
+    for oi, s in enumerate(case['objs']):
+        k = s['kind']
+        kk = 'temporal' if k == 'dataset' and len(s['shape']) == 3 else k
+        tags = set()
+        for form, fld, ss in _str_sites(s):
+            for x in ss:
+                cl = _str_classes(x)
+                for c in cl - {'empty'}:
+                    tags.add('str:' + c)
+                    tags.add('str:%s:%s' % (c, form))
+                if 'empty' in cl and form == 'array':
+                    tags.add('str:empty:array')
+                if 'long' in cl and 'trailing-blank' in cl:
+                    tags.add('str:long+trailing-blank')
+                if (cl - {'empty', 'long'}) and form != 'key':
+                    if fld in ('measure', 'name', 'method', 'cv_method'):
+                        tags.add('str:edge:field:' + fld)
+                    elif fld != 'descriptors':
+                        tags.add('str:edge:per-element')
+            if form in ('array', 'mixed') and len(ss) >= 2:
+                if any(a != b and a.rstrip() == b.rstrip() for a in ss for b in ss):
+                    tags.add('str:differ-only-trailing')
+                    tags.add('str:differ-only-trailing:' + form)
+                if any(a != b and unicodedata.normalize('NFC', a) == unicodedata.normalize('NFC', b)
+                       for a in ss for b in ss):
+                    tags.add('str:nfd-pair')
+
+        def visit(d, tags=tags):
+            if d.get('py') in ('nd', 'tuple') and (d.get('dtype') in ('U', 'O') or d.get('py') == 'tuple'):
+                ss = [x if isinstance(x, str) else x.get('v') if isinstance(x, dict) and x.get('py') == 'str' else None
+                      for x in d['v']]
+                if any(isinstance(x, str) and (_str_classes(x) - {'empty', 'long'}) for x in ss):
+                    tags.add('str:edge:tuple' if d['py'] == 'tuple' else 'str:edge:object-array'
+                             if d['dtype'] == 'O' else 'str:edge:2d-array' if len(d['shape']) == 2 else 'str:edge:1d-array')
+        _walk(s, visit)
+        if tags:
+            edge_objs.add(oi)
+            tags.add('str:edge:kind:' + kk)
+            if s.get('history'):
+                tags.add('str:edge:history')
+        br |= tags
+    for op in case['ops']:
+        if op['do'] == 'save' and op['obj'] in edge_objs:
+            br.add('str:edge:' + _ft(op))
+            if not op['target']['path']:
+                br.add('str:edge:handle')
+    return br
+
+
 def features(case, impl):
-    br = set(_falsy_tags(case))
+    br = set(_falsy_tags(case)) | _str_tags(case)
     for s in case['objs']:
         k = s['kind']
         br.add('kind:temporal' if k == 'dataset' and len(s['shape']) == 3 else 'kind:' + k)
